@@ -65,12 +65,13 @@ impl FileName {
     }
 
     /// On top of separating the path into the module name and the file components,
-    /// this will also strip any ".capy" at the end of a component,
+    /// this will also strip the ".capy" at the end of the last component (the file),
     /// and will replace any '.' with a "\." (and any '\' with a "\\").
     ///
     /// The components are joined with '.' to display them and make up the symbol names of the
     /// file's globals, so two different files must never get the same components. Replacing
-    /// '.' with '-' made "a.b.capy" and "a-b.capy" the same file.
+    /// '.' with '-' made "a.b.capy" and "a-b.capy" the same file, stripping ".capy" from
+    /// folders made "d.capy/x.capy" and "d/x.capy" the same file.
     pub fn get_components<'a>(
         &'a self,
         mod_dir: &'a Path,
@@ -104,13 +105,24 @@ impl FileName {
                 .and_then(|c| c.as_os_str().to_str())
                 .is_some_and(|c| c == "src");
 
+        let num_components = relative_path
+            .components()
+            .filter(|c| !matches!(c, Component::Prefix(_) | Component::RootDir))
+            .count();
+
         let mut components = relative_path
             .components()
             .filter(|c| !matches!(c, Component::Prefix(_) | Component::RootDir))
             .map(|c| c.as_os_str().to_string_lossy())
-            .map(|c| {
+            .enumerate()
+            .map(move |(idx, c)| {
                 if c.contains('.') || c.contains('\\') {
-                    let res = c.strip_suffix(".capy").unwrap_or(&c);
+                    // only the file itself has the extension; a folder can be called "d.capy"
+                    let res = if idx + 1 == num_components {
+                        c.strip_suffix(".capy").unwrap_or(&c)
+                    } else {
+                        &c
+                    };
 
                     res.replace('\\', "\\\\").replace('.', "\\.").into()
                 } else {
